@@ -134,13 +134,24 @@ class Extractor:
             self.rule_counts[rid] = self.rule_counts.get(rid, 0) + n
 
     # -- items ---------------------------------------------------------------
-    def item(self, rel, kind, name, rewrites=None):
+    def item(self, rel, kind, name, rewrites=None, keep_derive=False):
         src, m = self._load(rel)
         r = find_item(src, m, kind, name)
         if r is None:
             raise LostAnchor('%s %s not found in %s' % (kind, name, rel))
         s, e = r
         text = src[s:e]
+        kept = ''
+        if keep_derive:
+            # keep only the Clone/Copy part of the item's #[derive(..)] (value semantics Verus must know about)
+            dm = re.search(r'#\[derive\(([^)]*)\)\]', text)
+            if dm is None:
+                dm = re.search(r'#\[derive\(([^)]*)\)\]\s*$', src[max(0, s - 200):s])
+            names = [x.strip() for x in (dm.group(1).split(',') if dm else [])]
+            keep = [x for x in names if x in ('Clone', 'Copy')]
+            if not keep:
+                raise LostAnchor('item %s: keep-derive asked but no Clone/Copy derive found' % name)
+            kept = '#[derive(%s)]\n' % ', '.join(keep)
         text, n4 = strip_attrs_and_docs(text)
         self._count('R4', n4)
         if kind in ('struct', 'enum'):
@@ -156,11 +167,11 @@ class Extractor:
                 raise LostAnchor('item %s: rewrite source %r not found' % (name, a))
             text = text.replace(a, b)
             self._count('RX', 1)
-        return text
+        return kept + text
 
     # -- functions -------------------------------------------------------------
     def function(self, rel, qual, ret=None, new_name=None, contract='', loops=None,
-                 proofs=None, rewrites=None, vis='pub', drop_self_mut=False, lebytes=None):
+                 proofs=None, rewrites=None, vis='pub', drop_self_mut=False, lebytes=None, prewrites=None):
         src, m = self._load(rel)
         lo, hi = 0, len(m)
         if '::' in qual:
@@ -303,6 +314,14 @@ class Extractor:
 
         # ---- rewrite rules
         applied = []
+        for (a, b) in (prewrites or []):
+            n = new_body.count(a)
+            if n == 0 and sig.count(a) == 0:
+                raise LostAnchor('%s: prewrite source %r not found' % (qual, a))
+            new_body = new_body.replace(a, b)
+            sig = sig.replace(a, b)
+            self._count('RX', max(n, 1))
+            applied.append('RX(pre) %r => %r x%d' % (a, b, max(n, 1)))
         if lebytes:
             # R2 (type-directed): X.to_{le,be}_bytes() -> v_<T>_to_xx_bytes(X) using the declared integer type of X
             def _le(mm):
@@ -361,7 +380,7 @@ def parse_template(text):
             i += 1
         elif s.startswith('//@item '):
             parts = s.split()
-            d = dict(file=parts[1], kind=parts[2], name=parts[3], rewrites=[])
+            d = dict(file=parts[1], kind=parts[2], name=parts[3], rewrites=[], keep_derive=('keep-derive' in parts[4:]))
             i += 1
             while i < len(lines) and lines[i].strip().startswith('//@rewrite '):
                 mm = re.match(r'//@rewrite\s+"(.*)"\s*=>\s*"(.*)"\s*$', lines[i].strip())
@@ -408,6 +427,11 @@ def parse_template(text):
                     if not mm:
                         raise Unsupported('bad //@rewrite line: %r' % t)
                     d['rewrites'].append((mm.group(1).replace('\\n', '\n'), mm.group(2).replace('\\n', '\n')))
+                elif t.startswith('//@prewrite '):
+                    mm = re.match(r'//@prewrite\s+"(.*)"\s*=>\s*"(.*)"\s*$', t)
+                    if not mm:
+                        raise Unsupported('bad //@prewrite line: %r' % t)
+                    d.setdefault('prewrites', []).append((mm.group(1).replace('\\n', '\n'), mm.group(2).replace('\\n', '\n')))
                 elif t.startswith('//@lebytes '):
                     for ent in t.split()[1:]:
                         nm, ty = ent.split(':')
@@ -438,10 +462,10 @@ def assemble(template_text, repo_root):
             chunks.append(d)
         elif kind == 'item':
             chunks.append('// ---- extracted item %s %s from %s\n' % (d['kind'], d['name'], d['file']) +
-                          ex.item(d['file'], d['kind'], d['name'], d.get('rewrites')))
+                          ex.item(d['file'], d['kind'], d['name'], d.get('rewrites'), d.get('keep_derive', False)))
         else:
             chunks.append('// ---- extracted fn %s from %s\n' % (d['qual'], d['file']) +
                           ex.function(d['file'], d['qual'], ret=d['ret'], new_name=d['new_name'],
                                       contract=d['contract'], loops=d['loops'], proofs=d['proofs'],
-                                      rewrites=d['rewrites'], vis=d['vis'], lebytes=d.get('lebytes')))
+                                      rewrites=d['rewrites'], vis=d['vis'], lebytes=d.get('lebytes'), prewrites=d.get('prewrites')))
     return '\n'.join(chunks), ex
